@@ -324,18 +324,56 @@ theorem move_spec (h : Heap V) (a : Handle) :
 
 end Heap
 
-/-! ### the SubManifold cast -/
+/-! ### cast to the same scalar type -/
+
+/-- the cast to the same scalar type succeeds and returns the same value -/
+def CastOk {M : Type} (A : Man α M) (Valid : M → Prop) : Prop := ∀ s, Valid s → A.cast s = .ok s
 
 section cast
 variable {M : Type} (A : Man α M)
 
-/-- the model, like the code, hands `(cast m, cast m0, fixed)` to the `(m0, m, fixed)` constructor -/
-theorem subCast_swaps (s : SubMan M) (cm cm0 : M) (h1 : A.cast s.m = .ok cm) (h0 : A.cast s.m0 = .ok cm0) :
-    ∃ c, (sub A).cast s = .ok c ∧ c.m0 = cm ∧ c.m = cm0 ∧ c.fixed = isort s.fixed := by
-  refine ⟨SubMan.ctor cm cm0 s.fixed, ?_, rfl, rfl, rfl⟩
+theorem castOk_lie (G : LieModel α) : CastOk (ofLie G) (fun _ => True) := fun _ _ => rfl
+theorem castOk_scalar : CastOk (scalar : Man α α) (fun _ => True) := fun _ _ => rfl
+theorem castOk_vecX : CastOk (vecX : Man α (List α)) (fun _ => True) := fun _ _ => rfl
+
+theorem castOk_vector {Valid : M → Prop} (hA : CastOk A Valid) (u : Nat → α) :
+    CastOk (vector A u) (fun ms => ∀ m ∈ ms, Valid m) := by
+  intro ms
+  induction ms with
+  | nil => intro _; rfl
+  | cons m ms ih =>
+    intro hv
+    change vectorCast A (m :: ms) = _
+    have h1 := hA m (hv m (by simp))
+    have h2 : vectorCast A ms = .ok ms := ih (fun x hx => hv x (by simp [hx]))
+    simp [vectorCast, h1, h2, bind, Except.bind, pure, Except.pure]
+
+theorem castOk_sub {Valid : M → Prop} (hA : CastOk A Valid) :
+    CastOk (sub A) (SubValid A Valid) := by
+  intro s hs
   change subCast A s = _
-  simp [subCast, h1, h0, bind, Except.bind, pure, Except.pure]
+  simp [subCast, hA _ hs.1, hA _ hs.2.1, SubMan.ctor, isort_of_sorted _ hs.2.2.2.1, bind,
+    Except.bind, pure, Except.pure]
+
+/-- the argument order of the tree before the repair: origin and value come back exchanged -/
+theorem subCastSwapped_swaps (s : SubMan M) (cm cm0 : M) (h1 : A.cast s.m = .ok cm)
+    (h0 : A.cast s.m0 = .ok cm0) :
+    ∃ c, subCastSwapped A s = .ok c ∧ c.m0 = cm ∧ c.m = cm0 ∧ c.fixed = isort s.fixed := by
+  refine ⟨SubMan.ctor cm cm0 s.fixed, ?_, rfl, rfl, rfl⟩
+  simp [subCastSwapped, h1, h0, bind, Except.bind, pure, Except.pure]
 
 end cast
+
+section castvariant
+variable {ι : Type} [DecidableEq ι] {Ms : ι → Type} {A : ∀ i, Man α (Ms i)}
+  {Valid : ∀ i, Ms i → Prop}
+
+theorem castOk_variant (hA : ∀ i, CastOk (A i) (Valid i)) (first : ι) :
+    CastOk (variant A first) (fun v => Valid v.1 v.2) := by
+  rintro ⟨i, x⟩ hv
+  change variantCast A ⟨i, x⟩ = _
+  simp [variantCast, hA i x hv, bind, Except.bind, pure, Except.pure]
+
+end castvariant
 
 end C07
